@@ -198,11 +198,30 @@ def check_map_worker_atomic(project):
     return 1, 1 - len(fails), fails, []
 
 
+def check_map_limiter(project):
+    """C15: AsyncRunnerTemplate.map installs the shared limiter itself (before any item task is created) and resets it in
+    a finally block - otherwise every item's run would create a private limiter and the bound would hold per item only."""
+    ms = _methods(project, "runners/_shared/template_async.py", "AsyncRunnerTemplate")
+    m = next((x for x in (ms or []) if x.name == "map"), None)
+    if m is None:
+        return 1, 0, [{"function": "runners/_shared/template_async.py:AsyncRunnerTemplate.map", "what": "map not found (contract anchor missing)"}], []
+    set_lines = [x.lineno for x in ast.walk(m) if isinstance(x, ast.Call) and isinstance(x.func, ast.Attribute) and x.func.attr == "_set_concurrency_limiter"]
+    launch_lines = [x.lineno for x in ast.walk(m) if isinstance(x, ast.Call) and ast.unparse(x.func) in ("asyncio.gather", "asyncio.create_task")]
+    reset_in_finally = any(isinstance(t, ast.Try) and any(isinstance(c, ast.Call) and isinstance(c.func, ast.Attribute) and c.func.attr == "_reset_concurrency_limiter"
+                                                          for f in t.finalbody for c in ast.walk(f)) for t in ast.walk(m))
+    fails = []
+    if not set_lines or (launch_lines and min(set_lines) > min(launch_lines)):
+        fails.append({"function": "runners/_shared/template_async.py:AsyncRunnerTemplate.map", "what": "map does not install the shared concurrency limiter before launching its items: the bound would hold per item, not globally"})
+    elif not reset_in_finally:
+        fails.append({"function": "runners/_shared/template_async.py:AsyncRunnerTemplate.map", "what": "map installs the limiter but does not reset it in a finally block"})
+    return 1, 1 - len(fails), fails, []
+
+
 CHECKS = {
     "C07": [check_graph_immutability, check_node_immutability],
     "C18": [check_runner_frames],
     "C13": [check_processor_call_sites],
-    "C15": [check_limiter_sites, check_map_worker_atomic],
+    "C15": [check_limiter_sites, check_map_worker_atomic, check_map_limiter],
     "C10": [check_map_worker_atomic],
 }
 
